@@ -914,7 +914,7 @@ func (ttr *TagTreeReader) readTagValuesOnly(tagKey string,
 			treeOffset: 0,
 		}
 		tvi.loopThroughTagValues(currTvMap)
-		id = endOff
+		id += 4 // on to the entry of the next metric; endOff is an offset into the file, not into the metadata
 	}
 	return nil
 }
